@@ -89,6 +89,10 @@ func (p *Program) Valid() bool {
 			}
 			hv(op.F)
 			hv(op.R)
+		case OpSetCtor:
+			if !defined[op.Src] || op.Ctor == nil || !top {
+				ok = false
+			}
 		case OpStatic:
 			valv(&op.V)
 			for i := range op.Items {
